@@ -47,6 +47,24 @@ FramingTags(D, v, out) ==
                                   \/ (RegCount(v) <= 31 /\ HC(out) # RegCount(v)))
              THEN {"C05:header_fields"} ELSE {})
 
+\* v with every field reduced to its wire width (what silent masking would encode)
+MaskChunkT(c) == IF c.ct = "rl" THEN [c EXCEPT !.sym = c.sym % 4, !.run = c.run % 8192]
+                 ELSE [c EXCEPT !.syms = [i \in 1..Len(c.syms) |-> c.syms[i] % (SvMax(c.ss) + 1)]]
+MaskXr(bl) == CASE bl.bt \in {"lrle", "drle", "prt"} -> [bl EXCEPT !.t = bl.t % 16] [] bl.bt = "ss" -> [bl EXCEPT !.toh = bl.toh % 4] [] OTHER -> bl
+Masked(v) ==
+  CASE v.k = "SLI" -> [v EXCEPT !.sli = [i \in 1..Len(v.sli) |-> [first |-> v.sli[i].first % 8192, number |-> v.sli[i].number % 8192, pic |-> v.sli[i].pic % 64]]]
+    [] v.k = "CCFB" -> [v EXCEPT !.blocks = [i \in 1..Len(v.blocks) |-> [v.blocks[i] EXCEPT !.mbs =
+                          [q \in 1..Len(v.blocks[i].mbs) |-> [r |-> v.blocks[i].mbs[q].r, ecn |-> v.blocks[i].mbs[q].ecn % 4, ato |-> v.blocks[i].mbs[q].ato % 8192]]]]]
+    [] v.k = "TWCC" -> [v EXCEPT !.ref = << 0 >> \o SubSeq(v.ref, 2, 4), !.chunks = [i \in 1..Len(v.chunks) |-> MaskChunkT(v.chunks[i])]]
+    [] v.k = "XR" -> [v EXCEPT !.blocks = [i \in 1..Len(v.blocks) |-> MaskXr(v.blocks[i])]]
+    [] OTHER -> v
+\* a value that is not well-formed only because a field exceeds its wire width: Marshal may refuse it, or
+\* encode the field reduced to its width - but then every other field must be encoded as it is (C08, C16)
+LeakTags(D, v, res) ==
+  IF IsList(v) \/ ~res.ok \/ WF(D, v) THEN {}
+  ELSE LET mv == Masked(v) IN
+       IF mv # v /\ WF(D, mv) /\ ~EncEq(D, mv, res.out) THEN {"C08:oversize_field_corrupts_neighbours"} ELSE {}
+
 MarshalTags(D, v, res) ==
   IF res.panic THEN {"PANIC:marshal"}
   ELSE LET wf == WFAny(D, v) IN
@@ -55,6 +73,7 @@ MarshalTags(D, v, res) ==
        \cup (IF OverAny(v) /\ res.ok THEN {"C08:over_limit_accepted"} ELSE {})
        \cup (IF res.ok THEN FramingTags(D, v, res.out) ELSE {})
        \cup (IF v.k = "CP" /\ res.ok /\ ~Valid(v.pkts) THEN {"C11:invalid_compound_marshalled"} ELSE {})
+       \cup LeakTags(D, v, res)
 
 \* MarshalSize: C05.  out = the integer returned; m = the last Marshal result
 \* for the same value ([ok |-> FALSE] if none)
@@ -243,6 +262,8 @@ UnitDecodeTags(u, b, res) ==
        ELSE {}
 UnitEncodeTags(u, v, res) ==
   IF res.panic THEN {"PANIC:unit_marshal"}
+  ELSE IF u = "rl" /\ res.ok /\ ~(v.sym \in 0..3 /\ v.run \in 0..8191)
+       THEN (IF res.out # BE16((v.sym % 4) * 8192 + (v.run % 8192)) THEN {"C16:unit_oversize_field_corrupts_neighbours"} ELSE {})
   ELSE LET r == EncUnit(u, v) IN
        IF r.st = "ok" THEN (IF ~res.ok THEN {"C16:unit_rejected"} ELSE IF res.out # r.v THEN {"C16:unit_bytes"} ELSE {})
        ELSE IF r.st = "rej" THEN (IF res.ok THEN {"C08:over_limit_accepted", "C16:unit_over_accepted"} ELSE {})
